@@ -270,6 +270,23 @@ func solveOne(o *Obligation, file string, opts solveOpts) *SolveResult {
 			return res
 		}
 	}
+	qfModel := ""
+	if !o.Cover {
+		// Undecided with the quantified axioms: try the quantifier-free part alone. Unsat there is
+		// unsat of the full query (fewer assumptions); sat there is a counterexample candidate
+		// modulo the axioms (the obligation fails either way, the model feeds the replay).
+		if qf, dropped := dropQuantified(file); dropped {
+			status, out, ms := runSolver(solvers[0], qf, 2, opts.seed)
+			res.Tried = append(res.Tried, fmt.Sprintf("%s(qf):%s:%dms", solvers[0].name, status, ms))
+			if status == "unsat" {
+				res.Status, res.Solver, res.Ms, res.Output = status, solvers[0].name+"(qf)", ms, out
+				return res
+			}
+			if status == "sat" {
+				qfModel = out
+			}
+		}
+	}
 	race := []solverSpec{solvers[0], solvers[1], solvers[2]}
 	ch := make(chan answer, len(race))
 	ctx, cancel := context.WithCancel(context.Background())
@@ -312,6 +329,11 @@ func solveOne(o *Obligation, file string, opts solveOpts) *SolveResult {
 	cancel()
 	if res.Solver == "" && len(answers) > 0 {
 		res.Output = answers[len(answers)-1].out
+		if qfModel != "" {
+			// still undecided: keep the model of the quantifier-free part as the counterexample candidate
+			res.Model = qfModel
+			res.Output += "\n; model of the quantifier-free part (candidate, modulo the quantified axioms):\n" + qfModel
+		}
 	}
 	return res
 }
@@ -326,4 +348,27 @@ func (o *Obligation) ok() bool {
 		return o.Result.Status != "unsat"
 	}
 	return o.Result.Status == "unsat"
+}
+
+// dropQuantified writes a copy of the query without its quantified assertions.
+func dropQuantified(file string) (string, bool) {
+	data, err := os.ReadFile(file)
+	if err != nil {
+		return "", false
+	}
+	var out []string
+	dropped := false
+	for _, ln := range strings.Split(string(data), "\n") {
+		if strings.HasPrefix(ln, "(assert ") && (strings.Contains(ln, "(forall ") || strings.Contains(ln, "(exists ")) {
+			dropped = true
+			continue
+		}
+		out = append(out, ln)
+	}
+	if !dropped {
+		return "", false
+	}
+	qf := strings.TrimSuffix(file, ".smt2") + ".qf.smt2"
+	os.WriteFile(qf, []byte(strings.Join(out, "\n")), 0o644)
+	return qf, true
 }
